@@ -255,6 +255,7 @@ def run(c, chk):
     # ---- R6.5 -------------------------------------------------------------------------------------
     include_position(c, chk, lex)
     section_handover(c, chk, model)
+    error_always_delivered(c, chk)
     # parse bracket: cfg_parse_fp sets line = 1 before the first token and maps STATE_ERROR to the parse-error code
     pfn = c.need('cfg_parse_fp')
     ex = sym.Explorer(c.modules, max_visits=2, mod_sets=c.mod_sets)
@@ -407,6 +408,31 @@ def include_position(c, chk, lex):
                  'include pop restores %s from the saved slot, expected filename and line' % sorted(pf))
     else:
         chk.ok('R6.5', 'include push/pop', 'push saves {fp, filename, line} and restarts at line 1; pop restores filename and line from the same slot', sample=True)
+
+
+def error_always_delivered(c, chk):
+    """R6.6: "has delivered at least one diagnostic to the error function": R6.1 shows that every failing exit calls cfg_error();
+    this rule shows that cfg_error() delivers - on every path it hands the message to the installed function or writes it
+    to the standard error stream.  No path (a "same message as last time" filter, a verbosity switch) drops it"""
+    chk.rule('R6.6', 'cfg_error() delivers every message: each of its paths calls the installed error function or writes the message to stderr')
+    fn = c.need('cfg_error')
+    ex = sym.Explorer(c.modules, max_visits=2, mod_sets=c.mod_sets, max_paths=20000)
+    n = 0
+    bad = None
+    for p in ex.explore(fn):
+        if p.end != 'ret':
+            continue
+        n += 1
+        delivered = any(e.kind == 'call' and (e.name == 'indirect:errfunc' or e.name in ('vfprintf', 'fprintf', 'fputs', 'vfprintf_unlocked')) for e in p.events)
+        if not delivered:
+            bad = bad or p
+    if bad is not None:
+        chk.fail('R6.6', 'message-dropped', c.where(bad.last_ins) if bad.last_ins is not None else c.where(fn),
+                 'cfg_error() can return without having delivered the message (%s): a parse that is rejected on that path returns the error code but the application '
+                 'never hears why' % fp.cond_text(bad, 4))
+    elif n:
+        chk.ok('R6.6', 'cfg_error: %d paths' % n, 'each calls cfg->errfunc or writes to stderr', sample=True)
+    chk.floor('R6.6 paths of cfg_error', n, 2)
 
 
 def section_handover(c, model_chk, model):
